@@ -1,7 +1,8 @@
 --------------------------- MODULE AttValuesTrace ---------------------------
 (* Trace validation: every recorded call of harness/att/att_harness.cpp on a real Bluetoe   *)
 (* server must be a step of AttValues (C06, C08, C09).                                      *)
-(*   {"e":"Reset","decl":<normalized declaration>,"smtu":n,"ncccd":k}                       *)
+(*   {"e":"Reset","decl":<normalized declaration>,"smtu":n,"ncccd":k}   first Reset of a trace *)
+(*   {"e":"Reset","again":true,"smtu":n,"ncccd":k}                       every later one        *)
 (*   {"e":"Req","c":c,"in":[..],"out":[..], <obs>}      any ATT PDU                          *)
 (*   {"e":"Notify","serial":s,"ind":b,"r":0|1, <obs>}   server.notify / indicate              *)
 (*   {"e":"Out","c":c,"out":[..],"n":k, <obs>}          server.l2cap_output                   *)
@@ -14,36 +15,53 @@
 (* <<"WHY", l, name, context, tags>> (material for the finding signature).                    *)
 EXTENDS AttValues, Json, IOUtils
 
-Tr == ndJsonDeserialize(IOEnv.TRACE)
+Tr == TLCGet(7)          \* = TrFile, see TInit
 
 VARIABLE l
 tvars == <<vars, l>>
 Ev == Tr[l]
 
 \* ---------------------------------------------------------------------------- observations
-CccdIdx == SelectSeq([i \in 1..Len(T) |-> i], LAMBDA i : T[i].kind = "cccd")
-\* value handle of the characteristic with running number s of the declaration
-SerialHandle(s) == T[CHOOSE i \in 1..Len(T) : T[i].kind = "value" /\ T[i].svc <= Len(cfg.d.services) /\ CharOf(T[i]).serial = s].h
-
-ValsObs(ev, v)  == \A i \in 1..Len(ev.vals) : v[SerialHandle(ev.vals[i][1])] = ev.vals[i][2]
-CccdObs(ev, cc) == \A c \in Conns : /\ Len(ev.cccd[c]) = Len(CccdIdx)
-                                    /\ \A i \in 1..Len(CccdIdx) : ev.cccd[c][i] = cc[c][T[CccdIdx[i]].h]
-MtuObs(ev, mc)  == \A c \in Conns : ev.mtu[c] = Min(cfg.smax, mc[c])
-ObsOK(ev) == ValsObs(ev, value') /\ CccdObs(ev, cccd') /\ MtuObs(ev, mtuc')
+\* the logged observation equals the projection of the state (v: value store, cc: configurations, mc: client MTUs)
+ValsObs(ev, v)  == \A i \in 1..Len(ev.vals) : v[cfg.serh[ev.vals[i][1]]] = ev.vals[i][2]
+CccdObs(ev, cc) == \A c \in Conns : ev.cccd[c] = [i \in 1..Len(cfg.cccdh) |-> cc[c][cfg.cccdh[i]]]
+MtuObs(ev, mc)  == ev.mtu = [c \in Conns |-> Min(cfg.smax, mc[c])]
+ObsOK(ev, s) == ValsObs(ev, s.value) /\ CccdObs(ev, s.cccd) /\ MtuObs(ev, s.mtuc)
 
 NoEncryption(t) == \A i \in 1..Len(t) : ~t[i].enc
+Here == [cfg |-> cfg, value |-> value, mtuc |-> mtuc, cccd |-> cccd, wq |-> wq]
 
+\* the set of states the logged event may lead to ({} = the specification cannot explain the event); for a request these
+\* are the outcomes r of AttValues!Outcomes with  Request(c, in, out, cb)  whose next state shows the logged observation
+After(ev) ==
+    CASE ev.e = "Reset" ->
+            \* (the table of a declaration is built once: a Reset with the declaration of the current state reuses it)
+            \* every Reset after the first one of a trace carries "again" instead of the declaration: the same server, new objects
+            {s \in (IF "again" \in DOMAIN ev THEN (IF cfg.d = <<>> THEN {} ELSE {StateOf(cfg)})
+                    ELSE IF ev.decl = cfg.d THEN {StateOf(cfg)} ELSE IF WellFormed(ev.decl) THEN {InitState(ev.decl)} ELSE {}) :
+                /\ NoEncryption(s.cfg.t)                       \* link security is C05's subject
+                /\ ev.smtu = s.cfg.smax /\ ev.ncccd = Len(s.cfg.cccdh)}
+      [] ev.e = "Req" ->
+            {[Here EXCEPT !.value = r.value, !.mtuc = r.mtuc, !.cccd = r.cccd, !.wq = r.wq] :
+                r \in {q \in Outcomes(ev.c + 1, ev.in) : PatMatches(q.pat, ev.c + 1, ev.in, ev.out) /\ q.cb = ev.cb /\ ObsOK(ev, q)}}
+      [] ev.e = "Out" ->
+            IF OutputOK(ev.c + 1, ev.out) /\ ev.n = Len(ev.out) /\ ev.cb = 0 /\ ObsOK(ev, Here) THEN {Here} ELSE {}
+      [] ev.e = "Notify" ->
+            IF ev.cb = 0 /\ ObsOK(ev, Here) THEN {Here} ELSE {}
+      [] ev.e = "Disc" ->
+            {s \in {[Here EXCEPT !.mtuc = [mtuc EXCEPT ![ev.c + 1] = 23],
+                                 !.cccd = [cccd EXCEPT ![ev.c + 1] = [h \in DOMAIN cccd[ev.c + 1] |-> 0]],
+                                 !.wq = IF wq.owner = ev.c + 1 THEN EmptyQ ELSE wq]} : ev.cb = 0 /\ ObsOK(ev, s)}
+      [] OTHER -> {}
+
+Goto(s) == cfg' = s.cfg /\ value' = s.value /\ mtuc' = s.mtuc /\ cccd' = s.cccd /\ wq' = s.wq
+\* the same as a relation between state and next state
 Explain(ev) ==
-    \/ /\ ev.e = "Reset"
-       /\ WellFormed(ev.decl)
-       /\ \E s \in {InitState(ev.decl)} :
-             /\ NoEncryption(s.cfg.t)                       \* link security is C05's subject
-             /\ ev.smtu = s.cfg.smax /\ ev.ncccd = Cardinality(CccdHandles(s.cfg.t))
-             /\ cfg' = s.cfg /\ value' = s.value /\ mtuc' = s.mtuc /\ cccd' = s.cccd /\ wq' = s.wq
-    \/ ev.e = "Req"    /\ Request(ev.c + 1, ev.in, ev.out, ev.cb) /\ ObsOK(ev)
-    \/ ev.e = "Out"    /\ Output(ev.c + 1, ev.out) /\ ev.n = Len(ev.out) /\ ev.cb = 0 /\ ObsOK(ev)
-    \/ ev.e = "Notify" /\ UNCHANGED vars /\ ev.cb = 0 /\ ObsOK(ev)
-    \/ ev.e = "Disc"   /\ Disconnect(ev.c + 1) /\ ev.cb = 0 /\ ObsOK(ev)
+    \/ ev.e = "Reset"  /\ \E s \in After(ev) : Goto(s)
+    \/ ev.e = "Req"    /\ Request(ev.c + 1, ev.in, ev.out, ev.cb) /\ ObsOK(ev, [value |-> value', cccd |-> cccd', mtuc |-> mtuc'])
+    \/ ev.e = "Out"    /\ Output(ev.c + 1, ev.out) /\ After(ev) # {}
+    \/ ev.e = "Notify" /\ UNCHANGED vars /\ After(ev) # {}
+    \/ ev.e = "Disc"   /\ Disconnect(ev.c + 1) /\ After(ev) # {}
 
 \* ---------------------------------------------------------------------------- diagnosis (signature material)
 OpName(op) == CASE op = OpMtuReq -> "ExchangeMtu" [] op = OpRead -> "Read" [] op = OpReadBlob -> "ReadBlob"
@@ -53,14 +71,14 @@ OpName(op) == CASE op = OpMtuReq -> "ExchangeMtu" [] op = OpRead -> "Read" [] op
 Perm(a) == (IF a.rd THEN "r" ELSE "-") \o (IF a.wr THEN "w" ELSE "-")
 \* context of an attribute: <value kind + permission options> @ <effective permissions>
 AttrClass(h) ==
-    IF ~HasAttr(T, h) THEN "none@--"
+    IF ~Has(h) THEN "none@--"
     ELSE LET a == AttrOf(h) IN
          IF a.kind = "value"
          THEN CharOf(a).vkind \o (IF CharOf(a).no_read THEN ":no_read" ELSE "") \o (IF CharOf(a).no_write THEN ":no_write" ELSE "") \o "@" \o Perm(a)
          ELSE a.kind \o "@" \o Perm(a)
 HasHandle(in) == Len(in) >= 3 /\ in[1] \in {OpRead, OpReadBlob, OpWrite, OpWriteCmd, OpPrepare}
 SizeClass(c, in) ==
-    IF ~HasHandle(in) \/ ~HasAttr(T, U16(in, 2)) THEN ""
+    IF ~HasHandle(in) \/ ~Has(U16(in, 2)) THEN ""
     ELSE LET n == Len(CurVal(c, AttrOf(U16(in, 2)))) IN
          CASE in[1] \in {OpWrite, OpWriteCmd} -> ":len" \o (IF Len(in) - 3 > n THEN ">" ELSE IF Len(in) - 3 = n THEN "=" ELSE "<") \o "size"
            [] in[1] = OpReadBlob /\ Len(in) = 5 -> ":off" \o (IF U16(in, 4) > n THEN ">" ELSE IF U16(in, 4) = n THEN "=" ELSE "<") \o "size"
@@ -69,7 +87,7 @@ SizeClass(c, in) ==
 MultiHandles(in) == IF in[1] = OpReadMultiple /\ Len(in) >= 3 THEN [i \in 1..((Len(in) - 1) \div 2) |-> U16(in, 2 * i)] ELSE <<>>
 Offending(c, in, out) ==
     IF in[1] = OpReadMultiple
-    THEN LET hs == MultiHandles(in)  bad == {i \in 1..Len(hs) : ~HasAttr(T, hs[i]) \/ ~AttrOf(hs[i]).rd} IN
+    THEN LET hs == MultiHandles(in)  bad == {i \in 1..Len(hs) : ~Has(hs[i]) \/ ~AttrOf(hs[i]).rd} IN
          IF bad = {} THEN 0 ELSE hs[CHOOSE i \in bad : \A j \in bad : i <= j]
     ELSE IF in[1] = OpReadByType /\ RbtListed(out)
     THEN LET es == RbtEntries(out)  bad == {i \in 1..Len(es) : ~RbtEntryOK(c, in, es[i])} IN
@@ -79,7 +97,7 @@ RbtTags(c, in, out) ==
     IF in[1] # OpReadByType \/ ~RbtListed(out) THEN {}
     ELSE LET h == Offending(c, in, out) IN
          IF h = 0 THEN {"first_entry_size"}
-         ELSE IF ~HasAttr(T, h) THEN {"no_such_attribute"}
+         ELSE IF ~Has(h) THEN {"no_such_attribute"}
          ELSE IF ~AttrOf(h).rd THEN {"unreadable_reported"}
          ELSE IF ~TypeEq(AttrOf(h).type, Drop(in, 5)) THEN {"wrong_type"} ELSE {"value"}
 GotClass(out) == IF out = <<>> THEN "none"
@@ -109,7 +127,7 @@ WhyOut(ev) ==
       (IF Len(out) > Mtu(c) \/ ev.n > Mtu(c) THEN {"len>mtu"} ELSE {}) \cup
       (IF ev.n # Len(out) THEN {"n>capacity"} ELSE {}) \cup
       (IF out # <<>> /\ (Len(out) < 3 \/ out[1] \notin {OpNotification, OpIndication}) THEN {"frame"}
-       ELSE IF out # <<>> /\ (~HasAttr(T, U16(out, 2)) \/ AttrOf(U16(out, 2)).kind # "value") THEN {"handle"}
+       ELSE IF out # <<>> /\ (~Has(U16(out, 2)) \/ AttrOf(U16(out, 2)).kind # "value") THEN {"handle"}
        ELSE IF out # <<>> /\ Drop(out, 3) # Take(value[U16(out, 2)], Mtu(c) - 3)
             THEN {IF Len(out) <= Mtu(c) THEN "payload" ELSE "payload_not_cut"}
        ELSE {}) \cup
@@ -132,15 +150,24 @@ NextReset(i) == IF \E j \in Resets : j > i
                 THEN CHOOSE j \in Resets : j > i /\ \A k \in Resets : k > i => j <= k
                 ELSE Len(Tr) + 1
 
-TInit == InitFor(Tr[1].decl) /\ l = 1
+\* the parsed trace is kept in a TLC register (TLC would parse the file again at every use of the definition)
+TrFile == ndJsonDeserialize(IOEnv.TRACE)
 
+\* before the first Reset: no declaration
+TInit == /\ cfg = [d |-> <<>>, t |-> <<>>, smax |-> 23, wqsize |-> 0, ix |-> <<>>, cccdh |-> <<>>, serh |-> <<>>]
+         /\ value = <<>> /\ wq = EmptyQ /\ mtuc = [c \in Conns |-> 23] /\ cccd = [c \in Conns |-> <<>>]
+         /\ l = 1 /\ TLCSet(7, TrFile)
+
+\* deterministic fold (contract of spec/README.md: MISMATCH / resynchronisation / TRACE_DONE); After(Ev) is evaluated once
+\* per event and plays the part of `ENABLED Explain(Ev)` / `Explain(Ev)`
 TNext ==
     \/ /\ l <= Len(Tr)
-       /\ IF ENABLED Explain(Ev)
-          THEN Explain(Ev) /\ l' = l + 1
-          ELSE /\ PrintT(<<"MISMATCH", l>>) /\ PrintT(<<"WHY", l>> \o Why(Ev))
-               /\ l' = IF StateNeutral(Ev) THEN l + 1 ELSE NextReset(l)
-               /\ UNCHANGED vars
+       /\ \E ns \in {After(Ev)} :
+             IF ns # {}
+             THEN (\E s \in ns : Goto(s)) /\ l' = l + 1
+             ELSE /\ PrintT(<<"MISMATCH", l>>) /\ PrintT(<<"WHY", l>> \o Why(Ev))
+                  /\ l' = IF StateNeutral(Ev) THEN l + 1 ELSE NextReset(l)
+                  /\ UNCHANGED vars
     \/ /\ l = Len(Tr) + 1
        /\ PrintT(<<"TRACE_DONE", Len(Tr)>>)
        /\ l' = l + 1 /\ UNCHANGED vars
